@@ -206,19 +206,25 @@ def _export_json(obj: Any) -> dict | float | int | str | bool | None:
     if isinstance(obj, float | int | str | bool):
         # basic data types
         return obj
-    # numpy arrays — must be checked before JAX_DTYPES to avoid ndarray.__eq__ TypeError
-    if isinstance(obj, np.ndarray):
+    # complex scalars (e.g. CCPR pole / residue) have no JSON representation of their own
+    if isinstance(obj, complex):
         return {
-            "__module__": "numpy",
-            "__name__": "array",
-            "__value__": obj.tolist(),
+            "__module__": "builtins",
+            "__name__": "complex",
+            "__value__": [obj.real, obj.imag],
         }
-    # JAX arrays — serialize as numpy arrays; RectilinearGrid.__post_init__ re-wraps via jnp.asarray
-    if isinstance(obj, jax.Array):
+    # numpy arrays — must be checked before JAX_DTYPES to avoid ndarray.__eq__ TypeError.
+    # JAX arrays are serialized as numpy arrays; RectilinearGrid.__post_init__ re-wraps via jnp.asarray.
+    # The dtype is stored explicitly: tolist() yields Python floats, which would come back as float64.
+    if isinstance(obj, np.ndarray | jax.Array):
+        arr = np.asarray(obj)
+        if np.iscomplexobj(arr):
+            raise NotImplementedError("complex arrays are not JSON serializable")
         return {
             "__module__": "numpy",
             "__name__": "array",
-            "__value__": np.asarray(obj).tolist(),
+            "__value__": arr.tolist(),
+            "__array_dtype__": str(arr.dtype),
         }
     # jax data types
     if obj in JAX_DTYPES:
@@ -312,6 +318,10 @@ def _import_obj_from_json(obj: dict | list | float | int | str | bool | None) ->
     cls = getattr(module, name)
     if "__value__" in obj:
         vals = obj["__value__"]
+        if mod == "builtins" and name == "complex":
+            return complex(vals[0], vals[1])
+        if "__array_dtype__" in obj:
+            return cls(_import_obj_from_json(vals), dtype=obj["__array_dtype__"])
         # dataclass
         if isinstance(vals, dict):
             kwargs = {k: _import_obj_from_json(v) for k, v in vals.items()}
